@@ -112,7 +112,7 @@ static void dfs_point(const void* addr, int kind, bool mod) {
   if (meYield) {   // yields never branch: hand over to the next other runnable thread (round robin)
     int nxt = -1; for (int i : en) if (i > t_self) { nxt = i; break; } if (nxt < 0) for (int i : en) if (i != t_self) { nxt = i; break; }
     if (nxt >= 0) switch_to(t_self, nxt); return; }
-  if (!mod) return;
+  if (!mod || (kind == K_POST && !g_post_store_points)) return;
   std::vector<int> alts; alts.push_back(t_self); for (int i : en) if (i != t_self) alts.push_back(i);
   if (alts.size() <= 1) return;
   size_t di = g_res.decs.size(); int choice = 0;
@@ -162,6 +162,7 @@ void user_event(const char* name, const void* p) noexcept {
   if (!controlled()) return; if (g_user_sink) g_user_sink(name, p);
   if (g_out && g_spec.log_steps) g_out->push_back(Event{t_self, K_USER, p, 0, 0, 1, 0, name}); }
 bool g_post_store_points = false;
+void post_point() noexcept { static char after; sched_point(&after, K_POST, 0); }
 bool weak_cas_spurious() noexcept {
   if (!controlled() || !g_spec.spurious_cas || !g_roi) return false;
   if (g_spec.strategy == S_RANDOM || g_spec.strategy == S_PCT) return (g_rng() % 16) == 0; return false; }
